@@ -143,18 +143,19 @@ const (
 	oCREATE = 0x40
 	oEXCL   = 0x80
 	oTRUNC  = 0x200
-	flagMask = 3 | oCREATE | oEXCL | oTRUNC
+	oAPPEND = 0x400
+	flagMask = 3 | oCREATE | oEXCL | oTRUNC | oAPPEND
 )
 
-// flagInDomain: access mode 0/1/2 with any of O_CREATE, O_EXCL, O_TRUNC (O_APPEND and others are
-// outside the driven domain: the backend ignores O_APPEND).
+// flagInDomain: access mode 0/1/2 with any of O_CREATE, O_EXCL, O_TRUNC, O_APPEND (the request server
+// ignores O_APPEND: such a handle starts at offset 0 like any other, which the model says too).
 func flagInDomain(flag int) bool { return flag >= 0 && flag&^flagMask == 0 && flag&3 != 3 }
 
 // what the server lets a handle do (pkg/sftp request server): a handle opened with any of
 // write/creat/trunc plus read is read-write, without read write-only, otherwise read-only.
 func canRW(flag int) (rd, wr bool) {
 	acc := flag & 3
-	w := acc != 0 || flag&(oCREATE|oTRUNC) != 0
+	w := acc != 0 || flag&(oCREATE|oTRUNC|oAPPEND) != 0
 	r := acc == 0 || acc == 2
 	return r, w
 }
